@@ -230,6 +230,9 @@ def _gen_window(rng, triples, L, neg, allow_empty):
 def _gen_tokens(rng, tier, cls):
     N, R = rng.randint(1, 4), rng.choice([0, 1, 2, 3, 4, 5, 6, 8])
     L = rng.randint(1, 12)
+    if rng.random() < 0.1:
+        # many more tokens than anything else in the workload, most of them kept (order of the kept tokens)
+        N, R, L = rng.randint(1, 2), rng.choice([17, 24, 40]), rng.choice([40, 90])
     rows = [_gen_triples(rng, R, L, wellformed=(cls != "tok_hostile" and rng.random() < 0.5)) for _ in range(N)]
     if cls == "tok_hostile" and R >= 2:
         for row in rows:  # duplicates
